@@ -69,11 +69,13 @@ End Transfer.
 Definition dnode_eqb (a b : dnode) : bool :=
   match a, b with
   | DPos n o, DPos m u => String.eqb n m && Nat.eqb o u
+  | DInst n o, DInst m u => String.eqb n m && Nat.eqb o u
   | DAux n x, DAux m y => Nat.eqb n m && Nat.eqb x y
   | _, _ => false
   end.
 Lemma dnode_eqb_eq a b : dnode_eqb a b = true <-> a = b.
-Proof. destruct a as [n o|n x], b as [m u|m y]; simpl; try (split; discriminate).
+Proof. destruct a as [n o|n o|n x], b as [m u|m u|m y]; simpl; try (split; discriminate).
+  - rewrite andb_true_iff, String.eqb_eq, Nat.eqb_eq. split; [intros [-> ->]; reflexivity | intros E; inversion E; auto].
   - rewrite andb_true_iff, String.eqb_eq, Nat.eqb_eq. split; [intros [-> ->]; reflexivity | intros E; inversion E; auto].
   - rewrite andb_true_iff, !Nat.eqb_eq. split; [intros [-> ->]; reflexivity | intros E; inversion E; auto]. Qed.
 Definition memd (a : dnode) (l : list dnode) : bool := existsb (dnode_eqb a) l.
@@ -110,8 +112,9 @@ Proof. induction a as [|[x c] a IH]; intros [|[u d] b] H; simpl in H; try discri
 Section Tie.
 Variable p : pspec.
 Variable lay : layout.
-Definition nodes : list dnode := map fst (d_nodes p).
-Definition dlinks : list dlink := d_eq p ++ d_wc p.
+Variable so : bool.
+Definition nodes : list dnode := map fst (d_nodes p so).
+Definition dlinks : list dlink := d_eq p so ++ d_wc p so.
 Definition dgraph_ok : bool :=
   sincr (map (enc p lay) nodes) && forallb (fun ab => memd (fst ab) nodes && memd (snd ab) nodes) dlinks.
 
@@ -130,7 +133,10 @@ Fixpoint sups_okb (ss : list (string * (list sref * nat))) (j : nat) : bool :=
   end.
 Definition spec_okb : bool :=
   nodup_str (map fst (p_sups p)) && nodup_str (map fst (p_strands p)) && sups_okb (p_sups p) 0 &&
-  forallb (fun '(_, (items, l, _)) => forallb (item_okb (List.length (p_sups p))) items && Nat.eqb l (refs_total p items)) (p_strands p).
+  forallb (fun '(_, (items, l, _)) => forallb (item_okb (List.length (p_sups p))) items && Nat.eqb l (refs_total p items)) (p_strands p) &&
+  (if so then nodup_str (map fst (p_structs p)) &&
+              forallb (fun '(n, _) => match first_inst_in p (p_structs p) n with Some _ => true | None => false end) (p_strands p)
+   else true).
 End Tie.
 
 Lemma nodup_str_NoDup l : nodup_str l = true -> NoDup l.
@@ -169,50 +175,54 @@ Proof. induction ss as [|[n0 [items0 l0]] ss IH]; intros j0 H j n items l Hj; [d
     rewrite forallb_forall in H1. apply H1, Hit.
   - replace (j0 + S j) with (S j0 + j) by lia. apply (IH (S j0) H3 j n items l Hj). Qed.
 
-Theorem spec_okb_wf p : spec_okb p = true -> spec_wf p.
-Proof. unfold spec_okb. intros H. apply andb_prop in H. destruct H as [H H4]. apply andb_prop in H. destruct H as [H H3].
+Theorem spec_okb_wf p so : spec_okb p so = true -> spec_wf p so.
+Proof. unfold spec_okb. intros H. apply andb_prop in H. destruct H as [H H5]. apply andb_prop in H. destruct H as [H H4]. apply andb_prop in H. destruct H as [H H3].
   apply andb_prop in H. destruct H as [H1 H2]. apply nodup_str_NoDup in H1. apply nodup_str_NoDup in H2. constructor.
   - intros j n items l Hj. apply (sups_okb_spec p (p_sups p) 0 H3 j n items l Hj).
   - intros n items l d Hin. split; [apply afind_In; assumption|]. rewrite forallb_forall in H4. specialize (H4 _ Hin). cbn in H4.
     apply andb_prop in H4. destruct H4 as [A B]. split; [|apply Nat.eqb_eq, B]. intros it Hit. apply item_okb_ok.
     rewrite forallb_forall in A. apply A, Hit.
   - intros j n items l Hj. unfold sup_index. assert (N : nth_error (map fst (p_sups p)) j = Some n) by (rewrite nth_error_map, Hj; reflexivity).
-    apply (index_of_nth _ n H1 0 j N). Qed.
+    apply (index_of_nth _ n H1 0 j N).
+  - intros SO sn v Hin. rewrite SO in H5. apply andb_prop in H5. destruct H5 as [A _]. apply nodup_str_NoDup in A. apply afind_In; assumption.
+  - intros SO n v Hin. rewrite SO in H5. apply andb_prop in H5. destruct H5 as [_ B]. rewrite forallb_forall in B. specialize (B _ Hin). cbn in B.
+    destruct (first_inst_in p (p_structs p) n); [discriminate | discriminate]. Qed.
 
 (* ---- the link list of the declarative graph, encoded, is the graph's link list ---- *)
 Lemma mk_app q a b : mk q (a ++ b) = mk q a ++ mk q b. Proof. unfold mk. apply map_app. Qed.
-Lemma links_same p l : In l (S_links p ++ R_links p) <-> In l (mk false (d_eq p) ++ mk true (d_wc p)).
+Lemma links_same p so l : In l (S_links p so ++ R_links p so) <-> In l (mk false (d_eq p so) ++ mk true (d_wc p so)).
 Proof. unfold S_links, R_links, d_eq, d_wc, base_lens, sup_lens, nb. rewrite !mk_app, !in_app_iff. tauto. Qed.
-Lemma nlinks_enc p lay : nlinks (enc_links p lay (d_eq p)) (enc_links p lay (d_wc p)) =
-  map (f3 dnode nat (enc p lay)) (mk false (d_eq p) ++ mk true (d_wc p)).
+Lemma nlinks_enc p lay so : nlinks (enc_links p lay (d_eq p so)) (enc_links p lay (d_wc p so)) =
+  map (f3 dnode nat (enc p lay)) (mk false (d_eq p so) ++ mk true (d_wc p so)).
 Proof. unfold nlinks, enc_links, mk. rewrite map_app, !map_map. reflexivity. Qed.
 
 Section Final.
 Variable p : pspec.
 Variable lay : layout.
+Variable so : bool.
 Variable g : cgraph.
-Hypothesis SOK : spec_okb p = true.
-Hypothesis DOK : dgraph_ok p lay = true.
-Hypothesis SAME : same_graph p lay g = true.
+Hypothesis SOK : spec_okb p so = true.
+Hypothesis DOK : dgraph_ok p lay so = true.
+Hypothesis SAME : same_graph p lay so g = true.
 
-Let V (x : dnode) : Prop := In x (nodes p).
-Let LL := mk false (d_eq p) ++ mk true (d_wc p).
+Let V (x : dnode) : Prop := In x (nodes p so).
+Let LL := mk false (d_eq p so) ++ mk true (d_wc p so).
 
 Lemma enc_inj x y : V x -> V y -> enc p lay x = enc p lay y -> x = y.
-Proof. unfold dgraph_ok in DOK. apply andb_prop in DOK. destruct DOK as [I _]. apply (sincr_inj (enc p lay) (nodes p) I). Qed.
+Proof. unfold dgraph_ok in DOK. apply andb_prop in DOK. destruct DOK as [I _]. apply (sincr_inj (enc p lay) (nodes p so) I). Qed.
 Lemma LL_valid a b q : In (a, b, q) LL -> V a /\ V b.
 Proof. unfold dgraph_ok in DOK. apply andb_prop in DOK. destruct DOK as [_ F]. rewrite forallb_forall in F. intros H.
-  assert (Hin : In (a, b) (dlinks p)).
+  assert (Hin : In (a, b) (dlinks p so)).
   { unfold LL in H. unfold dlinks. rewrite in_app_iff in *. rewrite !In_mk in H. tauto. }
   specialize (F _ Hin). cbn in F. apply andb_prop in F. destruct F as [F1 F2]. split; apply memd_In; assumption. Qed.
 
-Lemma graph_links : g_eq g = enc_links p lay (d_eq p) /\ g_wc g = enc_links p lay (d_wc p) /\
-  g_st g = map (fun nc => (enc p lay (fst nc), snd nc)) (d_nodes p).
+Lemma graph_links : g_eq g = enc_links p lay (d_eq p so) /\ g_wc g = enc_links p lay (d_wc p so) /\
+  g_st g = map (fun nc => (enc p lay (fst nc), snd nc)) (d_nodes p so).
 Proof. unfold same_graph in SAME. apply andb_prop in SAME. destruct SAME as [H H3]. apply andb_prop in H. destruct H as [H1 H2].
   split; [apply pairs_eqb_eq, H2 | split; [apply pairs_eqb_eq, H3 | apply nodes_eqb_eq, H1]]. Qed.
 
 (* connectivity in the seeded graph between declared nodes = connectivity in the declarative graph *)
-Lemma gconn_dgraph x q y : V x -> V y -> (gconn g (enc p lay x) q (enc p lay y) <-> pconn dnode (S_links p ++ R_links p) x q y).
+Lemma gconn_dgraph x q y : V x -> V y -> (gconn g (enc p lay x) q (enc p lay y) <-> pconn dnode (S_links p so ++ R_links p so) x q y).
 Proof. intros Vx Vy. destruct graph_links as [GE [GW _]]. unfold gconn. rewrite GE, GW, conn_pconn, nlinks_enc.
   etransitivity; [apply (transfer dnode nat (enc p lay) V LL enc_inj LL_valid x q y Vx Vy)|].
   split; apply pconn_mono; intros l Hl; apply links_same; exact Hl. Qed.
@@ -224,6 +234,6 @@ Proof. intros Vx H. destruct graph_links as [GE [GW _]]. unfold gconn in H. rewr
 
 Theorem seeded_graph_denotes x q y : V x -> V y ->
   (gconn g (enc p lay x) q (enc p lay y) <->
-   pconn dnode (Rc_links p) (fst (kap p x)) (xorb q (xorb (snd (kap p x)) (snd (kap p y)))) (fst (kap p y))).
+   pconn dnode (Rc_links p so) (fst (kap p so x)) (xorb q (xorb (snd (kap p so x)) (snd (kap p so y)))) (fst (kap p so y))).
 Proof. intros Vx Vy. rewrite (gconn_dgraph x q y Vx Vy). apply dgraph_contraction. apply spec_okb_wf, SOK. Qed.
 End Final.
